@@ -148,6 +148,7 @@ def _scale_params(module, factor):
 
 class DDPG(OffPolicyCont):
     name = "ddpg"
+    tanh_actor = True
     marker_keys = ("q loss",)
     fn = "train_ddpg"
     result_step = "steps_trained"
@@ -275,6 +276,7 @@ class TD3LAP(TD3):
 
 class SAC(DDPG):
     name = "sac"
+    tanh_actor = False
     result_step = "global_step"
     deterministic_actor = False
     target_pairs = (("q_target", "q"),)
